@@ -145,8 +145,8 @@ let rand_case r : gcase =
       | 0 | 1 | 2 -> AX
       | 3 | 4 when rl <> [] -> AR (rand_int r (List.length rl))
       | 5 | 6 when ll <> [] -> AL (rand_int r (List.length ll))
-      | 7 -> AI (if other <> 0 && rand_bool r then Other (rand_int r 3) else Kid (rand_int r (nk + 1)))
-      | 8 -> AU (List.nth live (rand_int r (List.length live)))
+      | 7 -> AI (if other <> 0 && rand_bool r then Other (rand_int r 4) else Kid (rand_int r (nk + 3)))   (* incl. reserved-never-added ids *)
+      | 8 -> if rand_int r 8 = 0 then AU (nk + 1 + rand_int r 2) else AU (List.nth live (rand_int r (List.length live)))
       | _ -> if rand_bool r then AX else AD (zi (rand_int r 300)) in
     (en, at_pool.(j), k)) in
   let len = match rand_int r 10 with 0 -> 0 | 1 -> 1 | 2 -> 12 + rand_int r 12 | _ -> 1 + rand_int r 7 in
@@ -180,6 +180,16 @@ let () =
                 (refs e other)
             done) [0; 1; 2]) ["vvv"; "bvb"; "vxb"])
         [(8, false); (4, true)]) [false; true]) [2; 3; 4; 5];
+      (* ids beyond the entries vector: entries 4 / 5 of a 3-kid unit (reserved, never added), `o 3` of the other unit *)
+      List.iter (fun version -> List.iter (fun other -> List.iter (fun e ->
+        let c = { version; fmt64 = (version = 3); asize = 8; be = false } in
+        let ll = [[LE (zi 1, zi 2)]] in
+        List.iter (fun (script, attrs) -> emit_case emit { c; kids = "vbv"; other; low_pc = -1; rl = []; ll; script; attrs })
+          ([ ([Dt (false, 4, e)], [(2, 0x02, AX)]); ([Call e], [(2, 0x02, AX)]); ([Pr e], [(1, 0x02, AL 0)]);
+             ([Cr (Kid e)], [(2, 0x02, AX)]); ([Ip (Kid e, zi 1)], [(1, 0x02, AL 0)]); ([Vv (Kid e)], [(3, 0x40, AX)]);
+             ([Cu (zi 1)], [(2, 0x49, AI (Kid e))]); ([Cu (zi 1)], [(2, 0x31, AU e)]); ([Ev [Ct (e, [7])]], [(2, 0x02, AX)]) ]
+           @ (if other = 0 then [] else [ ([Cr (Other 3)], [(2, 0x02, AX)]); ([Vv (Other 3)], [(1, 0x02, AL 0)]); ([Cu (zi 1)], [(2, 0x49, AI (Other 3))]) ])))
+        [4; 5]) [0; 1; 2]) [2; 3; 4; 5];
       (* low_pc present: base-relative lists before v5 *)
       List.iter (fun version ->
         emit_case emit { c = { version; fmt64 = false; asize = 4; be = false }; kids = "vv"; other = 0; low_pc = 4096;
